@@ -3,6 +3,7 @@
 #include "scen.h"
 #include <stdio.h>
 #include <algorithm>
+#include <arpa/inet.h>
 
 static bool is_raw(const Bytes &b) { return b.size() >= 4 && b[0] == 0x10 && b[1] == 0xd1 && b[2] == 0x9e; }
 static std::string lower(std::string s) { for (auto &c : s) c = (char)tolower((unsigned char)c); return s; }
@@ -56,11 +57,13 @@ struct C02Delivery : Monitor {
 
 	void on_tun_read(Task &t, const Bytes &p) override
 	{
-		if (w->clients.size() != 1) return;
+		if (w->clients.empty()) return;
+		if (clean_a && w->clients.size() != 1) return;
 		if (&t == w->clients[0].task) { pend_c = p; have_pend = true; pend_t = w->S.now; return; }
 		if (&t != w->srv) return;
 		if (p.size() < 24) { dropped_s++; return; }
 		uint32_t dst_net; memcpy(&dst_net, &p[20], 4);
+		if (ntohl(dst_net) != w->clients[0].tun_ip_h) return;    // only the watched client's downstream
 		int n = peek_nusers();
 		for (int u = 0; u < n; u++) {
 			UserView v;
@@ -107,7 +110,7 @@ struct C02Delivery : Monitor {
 	void on_tun_write(Task &t, const Bytes &p) override
 	{
 		if (&t == w->srv) del_s.push_back({p, w->S.now});
-		else del_c.push_back({p, w->S.now});
+		else if (!w->clients.empty() && &t == w->clients[0].task) del_c.push_back({p, w->S.now});
 	}
 
 	void cmp_clean(const char *dir, std::vector<Acc> &acc, std::vector<Del> &del)
@@ -174,7 +177,8 @@ struct C02Delivery : Monitor {
 
 	void on_end() override
 	{
-		if (w->clients.size() != 1 || !w->all_in_tunnel) return;
+		if (w->clients.empty() || !w->all_in_tunnel) return;
+		if (clean_a && w->clients.size() != 1) return;
 		w->probes["c02.acc_c"] = (int64_t)acc_c.size(); w->probes["c02.acc_s"] = (int64_t)acc_s.size();
 		w->probes["c02.del_s"] = (int64_t)del_s.size(); w->probes["c02.del_c"] = (int64_t)del_c.size();
 		if (w->S.capped) return;
@@ -186,7 +190,7 @@ struct C02Delivery : Monitor {
 		if (recovery_b) {
 			uint64_t tf = w->T0 + (uint64_t)w->cfg["faults"].geti("t1_us");
 			uint64_t Tstart = tf + 60ull * 1000000;
-			for (auto &t : w->S.tasks) if (t->state == T_EXITED) {
+			for (auto &t : w->S.tasks) if (t->state == T_EXITED && (t.get() == w->srv || t.get() == w->clients[0].task)) {
 				char b[160]; snprintf(b, sizeof b, "%s exited at %.1fs (faults ended at %.1fs)", t->name.c_str(), t->t_exit / 1e6, tf / 1e6);
 				w->S.violate("C02", "recover.exit", b); return;
 			}
@@ -241,6 +245,13 @@ struct Ledger : Monitor {
 		}
 		DnsMsg m;
 		std::string e = dns_parse_strict(d.data, m);
+		// C10 quantifies over well-formed queries whose labels contain no '.' or NUL: what the server
+		// emits because of a query outside that domain (an answer or a forwarded copy) is not judged
+		if (t == w->srv && !trigger_is_plain(d, loop_dst)) {
+			w->probes["c10.skipped_nonplain_trigger"]++;
+			if (!loop_dst) consume(d, e.empty() ? &m : nullptr, true);
+			return;
+		}
 		w->probes["c10.checked"]++;
 		if (!e.empty()) {
 			w->S.violate("C10", "malformed", t->name + " emitted a malformed DNS message: " + e + " [" + hexs(d.data, 48) + "]");
@@ -263,7 +274,22 @@ struct Ledger : Monitor {
 		if (m.qd.size() != 1) w->S.violate("C10", "server.sections", "answer without exactly one question");
 		consume(d, &m);
 	}
-	void consume(const Dgram &d, const DnsMsg *m)
+	bool trigger_is_plain(const Dgram &d, bool loop_dst)
+	{
+		uint16_t id = (d.data.size() >= 2) ? (uint16_t)((d.data[0] << 8) | d.data[1]) : 0;
+		if (loop_dst) {
+			// forwarded query: the trigger is the most recent query with this id from any asker
+			const Q *best = nullptr;
+			for (auto &p : pend) for (auto &q : p.second) if (q.id == id && (!best || q.t >= best->t)) best = &q;
+			return best && best->strict && best->plain_labels;
+		}
+		auto it = pend.find(d.dst.str());
+		if (it == pend.end()) return true;     // unsolicited: let consume() report it
+		bool any = false, plainq = false;
+		for (auto &q : it->second) if (q.id == id) { any = true; if (q.strict && q.plain_labels) plainq = true; }
+		return !any || plainq;
+	}
+	void consume(const Dgram &d, const DnsMsg *m, bool quiet_echo = false)
 	{
 		uint16_t id = (d.data.size() >= 2) ? (uint16_t)((d.data[0] << 8) | d.data[1]) : 0;
 		auto &v = pend[d.dst.str()];
@@ -278,7 +304,7 @@ struct Ledger : Monitor {
 			return;
 		}
 		int use = found_exact >= 0 ? found_exact : found;
-		if (m && !m->qd.empty() && v[use].strict && v[use].plain_labels && found_exact < 0) {
+		if (!quiet_echo && m && !m->qd.empty() && v[use].strict && v[use].plain_labels && found_exact < 0) {
 			w->S.violate("C10", "echo", "answer id=" + std::to_string(id) + " carries question '" + m->qd[0].name.dotted() + "'/" + std::to_string(m->qd[0].type) +
 				     " but the query was '" + v[use].name + "'/" + std::to_string(v[use].type));
 		}
